@@ -210,7 +210,7 @@ class Grid2DCentroids(Contract):
     target = "geoh5py/objects/grid2d.py::Grid2D.centroids.fget"
     props = ("C17",)
     has_native = True
-    bounded_scope = "counts 1-4 x 1-4, cell sizes {0.5,1,-2}, rotations {0,30,90}, dips {0,45,90}, origins incl. default (sampled 200/2000); plus counts 1-12 with inexact cell sizes {0.1,0.3,0.7,0.001} on either axis (exhaustive); plus 12 cases computed after another grid of the same orientation was exported to an image, copied, clipped or had its centres array edited in place"
+    bounded_scope = "counts 1-4 x 1-4, cell sizes {0.5,1,-2}, rotations {0,30,90}, dips {0,45,90}, origins incl. default (sampled 200/2000); plus counts 1-12 with inexact cell sizes {0.1,0.3,0.7,0.001} on either axis (exhaustive); setter histories of 2-6 assignments over {vertical on/off, dip, rotation, cell sizes, origin, counts} with the centres read in between (7 fixed + 40 seeded / 400); plus 12 cases computed after another grid of the same orientation was exported to an image, copied, clipped or had its centres array edited in place"
     attr_overrides = {
         "u_count": lambda I, obj: obj.fields["_u_count"], "v_count": lambda I, obj: obj.fields["_v_count"],
         "u_cell_size": lambda I, obj: obj.fields["_u_cell_size"], "v_cell_size": lambda I, obj: obj.fields["_v_cell_size"],
@@ -262,6 +262,15 @@ class Grid2DCentroids(Contract):
         for _ in range(200 if tier == "quick" else 2000):
             yield {"nU": rng.randint(1, 4), "nV": rng.randint(1, 4), "du": rng.choice([0.5, 1.0, -2.0]), "dv": rng.choice([0.5, 1.0, -2.0]),
                    "rotation": rng.choice([0.0, 30.0, 90.0]), "dip": rng.choice([0.0, 45.0, 90.0]), "origin": rng.choice([None, [5.0, -3.0, 1.0]])}
+        # setter histories: after any sequence of assignments (the centres read in between, so that they are cached) the
+        # centres are those of the geometry the grid reports now
+        steps = [("vertical", True), ("vertical", False), ("dip", 30.0), ("dip", 60.0), ("rotation", 45.0), ("rotation", 0.0), ("u_cell_size", 2.0), ("v_cell_size", 0.5),
+                 ("origin", [1.0, 2.0, 3.0]), ("u_count", 4), ("v_count", 3)]
+        fixed = [[0, 1], [2, 0, 1], [0, 3, 1], [4, 0, 1, 5], [0, 0, 1, 1], [6, 0, 7, 1, 8], [9, 0, 10, 1]]
+        for h in fixed:
+            yield {"history": [steps[i] for i in h], "nU": 3, "nV": 2, "du": 1.0, "dv": 1.0, "rotation": 20.0, "dip": 30.0, "origin": [5.0, -3.0, 1.0]}
+        for _ in range(40 if tier == "quick" else 400):
+            yield {"history": [steps[rng.randrange(len(steps))] for _ in range(rng.randint(2, 6))], "nU": 3, "nV": 2, "du": 1.0, "dv": 1.0, "rotation": 20.0, "dip": 30.0, "origin": [5.0, -3.0, 1.0]}
         # the centres do not depend on what else was done with grids of the same orientation earlier in the process
         for prelude in ("to_geoimage", "copy", "clip", "centroids-edited-in-place"):
             for rot, dip in ((30.0, 45.0), (90.0, 90.0), (30.0, 0.0)):
@@ -293,8 +302,15 @@ class Grid2DCentroids(Contract):
                 kw["origin"] = case["origin"]
             try:
                 g = Grid2D.create(ws, **kw)
+                for attr, val in case.get("history", []):
+                    _ = g.centroids  # cached
+                    setattr(g, attr, val)
                 got = np.asarray(g.centroids, dtype=float)
                 n_cells = g.n_cells
+                if case.get("history"):
+                    # what the grid reports now
+                    case = dict(case, nU=int(g.u_count), nV=int(g.v_count), du=float(g.u_cell_size), dv=float(g.v_cell_size), rotation=float(g.rotation), dip=float(g.dip),
+                                origin=[float(g.origin["x"]), float(g.origin["y"]), float(g.origin["z"])])
             except Exception as exc:
                 return f"{type(exc).__name__}: {exc} for {case}"
         o = np.array(case["origin"] or [0.0, 0.0, 0.0])
